@@ -1722,6 +1722,8 @@ class Circuit(Unitary, StateVectorMap, Collection[Operation]):
 
             ValueError: If `point.qudit` is not in `op.location`
         """
+        self.check_valid_operation(op)
+
         if len(self[point].location.intersection(op.location)) == 0:
             raise ValueError("Point's qudit is not in operation's location.")
 
